@@ -573,7 +573,7 @@ func genSchedVal(r *vh.Rng, zones bool) Val {
 	ex := func() Val {
 		switch x := r.Below(20); {
 		case x == 0:
-			return sv("TZ=UTC") // panics in the cron parser
+			return sv("TZ=UTC") // the cron library panics on it; the loader refuses it first
 		case x < 3:
 			return sv([]string{"bad", "* * * *", "61 * * * *", "", "@daily"}[r.Below(5)])
 		default:
@@ -1202,7 +1202,7 @@ func genContent(r *vh.Rng, m0 int64, span int, allowPanic bool) Content {
 		v := []Val{sv("61 * * * *"), lv(sv("* * * * *"), ov("5")), ov("7"), mv([]Val{sv("start"), sv("* * * *")}), mv([]Val{ov("1"), sv("* * * * *")}),
 			sv("CRON_TZ=Nowhere/Land * * * * *")}[r.Below(6)]
 		return Content{V: &v}
-	case x == 6 && allowPanic: // loader panics (F13a unknown map key, F13b zone prefix without a space)
+	case x == 6 && allowPanic: // shapes on which the loader used to panic (F13a unknown map key, F13b zone prefix without a space; repaired: load errors)
 		v := []Val{mv([]Val{sv("begin"), sv("* * * * *")}), sv("TZ=UTC"), lv(sv("* * * * *"), sv("CRON_TZ=UTC")),
 			mv([]Val{sv("Start"), lv(sv("* * * * *"))})}[r.Below(4)]
 		return Content{V: &v}
@@ -1392,7 +1392,7 @@ func fixedSeqs() []Case {
 	// F9b: two start schedules matching one minute
 	cs = append(cs, Case{Kind: "seq", Stream: "fixed-f9b", Files: []FileC{f("d0.yaml", lv(sv("* * * * *"), sv("*/2 * * * *")))}, Ops: ticks(2)})
 	cs = append(cs, Case{Kind: "seq", Stream: "fixed-f9b-live", Live: true, Files: []FileC{f("d0.yaml", lv(sv("* * * * *"), sv("*/2 * * * *")))}, Ops: ticks(1)})
-	// F13a / F13b at the initial scan and through the watcher
+	// F13a / F13b (repaired in /repo: the files now merely fail to load) at the initial scan and through the watcher
 	cs = append(cs, Case{Kind: "seq", Stream: "fixed-f13a", Files: []FileC{f("d0.yaml", sv("* * * * *")), f("d1.yaml", mv([]Val{sv("begin"), sv("* * * * *")}))}, Ops: ticks(2)})
 	cs = append(cs, Case{Kind: "seq", Stream: "fixed-f13b", Files: []FileC{f("d0.yaml", sv("* * * * *")), f("d1.yaml", sv("TZ=UTC"))}, Ops: ticks(2)})
 	{
